@@ -61,6 +61,25 @@ def cases(tier, seed):
         k = rng.randint(2, 4)
         bl = [(rng.choice(full4)[:rng.randint(1, 4)], F(rng.choice([1, 1, 2, F(1, 2)]))) for _ in range(k)]
         cs.append((c4, bl))
+    # several listed candidates that no ballot ranks (scores and tiers are still defined over the whole candidate list)
+    c5 = gen.NAMES[:5]
+    part3 = [tuple(frozenset([c]) for c in p)[:k] for p in itertools.permutations(c5[:3]) for k in (1, 2, 3)]
+    cyc = [tuple(frozenset([c]) for c in p) for p in (("A", "B", "C"), ("B", "C", "A"), ("C", "A", "B"))]
+    for i in range(500 if tier == "quick" else 2500):
+        if i % 2:
+            k = rng.randint(2, 5)
+            bl = [(rng.choice(part3), F(rng.choice([1, 2, 3, 4, 6, F(1, 2)]))) for _ in range(k)]
+        else:  # a Condorcet cycle of partial ballots (close Borda scores inside one tier) plus one more ballot
+            bl = [(r[:rng.randint(2, 3)], F(rng.randint(1, 7))) for r in cyc] + [(rng.choice(part3), F(rng.randint(1, 5)))]
+        cs.append((c5, bl))
+    # short ballots that leave many (>= 6) candidates unranked: they are indifferent between the unranked ones
+    c7 = gen.NAMES[:7]
+    full7 = [tuple(frozenset([c]) for c in p) for p in (c7, c7[::-1], c7[3:] + c7[:3])]
+    for i in range(12 if tier == "quick" else 40):
+        bl = [((frozenset([c7[i % 7]]),), F(1 + i % 3)), (full7[i % 3][:(7 if i % 2 else 1)], F(1))]
+        if i % 4 == 0:
+            bl.append(((frozenset([c7[(i + 2) % 7]]),), F(2)))
+        cs.append((c7, bl))
     if tier == "thorough":
         for cands, bl in gen.profiles_random(random.Random(seed), 3000):
             cs.append((cands, bl))
@@ -184,4 +203,4 @@ def check_case(case):
 
 def run(tier="quick", seed=0):
     return common.run("bounded.C06", cases(tier, seed), bound="3 candidates x <=3 ballots exhaustive + 4-candidate samples (quick); <=5 x 6 random (thorough)",
-                      rule=RULE, budget_s=150 if tier == "quick" else 1200)
+                      rule=RULE, budget_s=600 if tier == "quick" else 1200)
